@@ -54,5 +54,7 @@ TraceSpec == TraceInit /\ [][TraceNext]_<<vars, l>>
 ASSUME TLCSet(1, 0)
 HighWater == TLCSet(1, IF l > TLCGet(1) THEN l ELSE TLCGet(1))
 Accepted == \/ TLCGet(1) = Len(Trace) + 1
-            \/ PrintT(<<"HW", TLCGet(1), Len(Trace)>>) /\ FALSE
+            \/ /\ PrintT(<<"HW", TLCGet(1), Len(Trace)>>)
+               /\ PrintT("Postcondition Accepted violated: the trace was not consumed")
+               /\ FALSE
 =============================================================================
